@@ -187,6 +187,13 @@ func (l *Lang) summary(a *Action) string {
 			}
 			us = append(us, Canon(u.Base)+"."+u.F+ap+Canon(u.Val))
 		}
+		for _, ev := range p.St.Events {
+			var as []string
+			for _, a := range ev.Args {
+				as = append(as, Canon(a))
+			}
+			us = append(us, ev.Kind+"("+strings.Join(as, ", ")+")")
+		}
 		sort.Strings(us)
 		cond := strings.Join(p.St.Conds, " && ")
 		ps = append(ps, "["+cond+"] "+s+" | "+strings.Join(us, "; "))
